@@ -20,6 +20,18 @@ META["C04"] = {
     "design_ref": "DESIGN.md §7 C04",
 }
 
+META["C19"] = {
+    "text": "Bounded symbolic model checking of the real CheckHardForks and its SQL (LowestSynced/HighestSynced, FetchMin/MaxSyncedVersion, back-fill inserts, SelectSynced) over databases built through the real InsertSynced + commit: the solver decides 'refused <=> some block at/above a fork was synced by too old (or untracked) a build, or by a newer build than the one starting' for every assignment of per-height build versions, fork heights, fork minimum versions and current version within the bounds, including legacy prefixes and intermediate restarts.",
+    "note": "miniature chain (S<=5 quick, <=7 thorough), 2 symbolic forks; json round trip of the sync record stubbed; shipped mainnet table not instantiated; D14 found by this check and repaired (fix: e5e114c)",
+    "design_ref": "DESIGN.md §7 C19",
+}
+
+META["C16"] = {
+    "text": "Bounded symbolic model checking of the real ConversionSupplySet (AddConversion, Payouts, PayoutBig, dust rule with SortTxIDS) for every bank and request amount in uint64: total paid <= bank and == bank when requests exceed it, full fill when they fit, each payout >= its proportional floor share, dust < request count and only to a largest request; payout <= request holds except for the recorded dust finding D9.",
+    "note": "1..3 requests quick, ..4 thorough; math/big as Int (NIA, z3 5.1); refund/bank-table glue (recordPegnetRequests, SyncBank) added as its own harness when built",
+    "design_ref": "DESIGN.md §7 C16",
+}
+
 NOT_APPLICABLE = {}
 for i in range(1, 21):
     p = "C%02d" % i
